@@ -2,7 +2,13 @@
 // every block it passes down the chain (same protocol as ocaml/c07_driver.ml).
 //   CC <order> <block_count> <chain_mem> <vocab_estimate> <corpus_file>
 //   -> cap=<entries per block> types=<n> tokens=<n> # w1.w2:count ... | w1.w2:count ...
+//   AC <order> <thr_1,...,thr_order> <pruned word ids|-> <types> <block_count> rec rec / rec ...
+//      the real lm::builder::AdjustCounts (with its CollapseStream) fed with the sorted highest-order counts in the given
+//      blocks; -> O1 rec ... # O2 ... # On blocks of the highest order as passed on (rec = words:count, * = marked)
+//                 # counts=.. pruned=.. discounts=..
 #include "lm/builder/corpus_count.hh"
+#include "lm/builder/adjust_counts.hh"
+#include "util/stream/multi_stream.hh"
 #include "lm/builder/payload.hh"
 #include "lm/common/ngram.hh"
 #include "lm/lm_exception.hh"
@@ -26,10 +32,106 @@ namespace {
 std::string g_tmp;
 uint64_t hx(const std::string &s) { return strtoull(s.c_str(), NULL, 16); }
 
+struct BlockProducer {
+  BlockProducer(const std::vector<std::vector<uint8_t> > *blocks) : blocks_(blocks) {}
+  void Run(const util::stream::ChainPosition &position) {
+    util::stream::Link l(position);
+    for (std::size_t b = 0; b < blocks_->size(); ++b, ++l) {
+      if (!(*blocks_)[b].empty()) memcpy(l->Get(), &(*blocks_)[b][0], (*blocks_)[b].size());
+      l->SetValidSize((*blocks_)[b].size());
+    }
+    l.Poison();
+  }
+  const std::vector<std::vector<uint8_t> > *blocks_;
+};
+
+struct Collector {
+  Collector(std::vector<std::string> *out, std::size_t order) : out_(out), order_(order) {}
+  void Run(const util::stream::ChainPosition &position) {
+    const std::size_t es = position.GetChain().EntrySize();
+    for (util::stream::Link l(position); l; ++l) {
+      std::ostringstream o;
+      const uint8_t *p = static_cast<const uint8_t*>(l->Get());
+      if (l->ValidSize() % es) o << "RAGGED ";
+      for (std::size_t i = 0; i < l->ValidSize() / es; ++i, p += es) {
+        if (i) o << ' ';
+        for (std::size_t j = 0; j < order_; ++j) { uint32_t w; memcpy(&w, p + 4 * j, 4); o << (j ? "." : "") << std::hex << w; }
+        uint64_t count; memcpy(&count, p + 4 * order_, 8);
+        o << ':' << std::hex << (count & ~(1ULL << 63));
+        if (count >> 63) o << '*';
+      }
+      out_->push_back(o.str());
+    }
+  }
+  std::vector<std::string> *out_; std::size_t order_;
+};
+
+std::string HandleAdjust(std::istringstream &in) {
+  std::string order_s, thr_s, pw_s, types_s, bc_s;
+  in >> order_s >> thr_s >> pw_s >> types_s >> bc_s;
+  const std::size_t order = hx(order_s), types = hx(types_s), block_count = hx(bc_s);
+  std::vector<uint64_t> thresholds;
+  { std::istringstream t(thr_s); std::string x; while (std::getline(t, x, ',')) thresholds.push_back(hx(x)); }
+  std::vector<bool> prune_words;
+  if (pw_s != "-") { prune_words.resize(types, false); std::istringstream t(pw_s); std::string x; while (std::getline(t, x, ',')) prune_words[hx(x)] = true; }
+  const std::size_t es = lm::NGram<lm::builder::BuildingPayload>::TotalSize(order);
+  std::vector<std::vector<uint8_t> > blocks(1);
+  std::string tok; std::size_t biggest = 1;
+  while (in >> tok) {
+    if (tok == "/") { blocks.push_back(std::vector<uint8_t>()); continue; }
+    std::vector<uint8_t> &b = blocks.back();
+    std::size_t at = b.size(); b.resize(at + es);
+    std::size_t colon = tok.find(':'), start = 0;
+    for (std::size_t i = 0; i < order; ++i) {
+      std::size_t dot = tok.find('.', start);
+      if (dot == std::string::npos || dot > colon) dot = colon;
+      uint32_t w = (uint32_t)hx(tok.substr(start, dot - start)); memcpy(&b[at + 4 * i], &w, 4); start = dot + 1;
+    }
+    uint64_t c = hx(tok.substr(colon + 1)); memcpy(&b[at + 4 * order], &c, 8);
+    biggest = std::max(biggest, b.size() / es);
+  }
+  std::vector<uint64_t> counts, counts_pruned;
+  std::vector<lm::builder::Discount> discounts;
+  lm::builder::DiscountConfig dc;
+  dc.fallback.amount[0] = 0.0; dc.fallback.amount[1] = 0.5; dc.fallback.amount[2] = 1.0; dc.fallback.amount[3] = 1.5;
+  dc.bad_action = lm::SILENT;
+  std::vector<std::vector<std::string> > out(order);
+  {
+    util::stream::Chains chains(order);
+    for (std::size_t i = 0; i < order; ++i) {
+      const std::size_t e = lm::NGram<lm::builder::BuildingPayload>::TotalSize(i + 1);
+      // lower orders: small blocks (7 records) so that their block boundaries are exercised as well
+      chains.push_back(util::stream::ChainConfig(e, i + 1 == order ? block_count : 2, i + 1 == order ? biggest * e * block_count : 7 * e * 2));
+    }
+    chains.back() >> BlockProducer(&blocks);
+    chains >> lm::builder::AdjustCounts(thresholds, counts, counts_pruned, prune_words, dc, discounts);
+    for (std::size_t i = 0; i < order; ++i) chains[i] >> Collector(&out[i], i + 1) >> util::stream::kRecycle;
+    chains.Wait(true);
+  }
+  std::ostringstream o;
+  for (std::size_t i = 0; i < order; ++i) {
+    o << (i ? " # " : "") << "O" << (i + 1);
+    if (i + 1 == order) { for (std::size_t b = 0; b < out[i].size(); ++b) o << (b ? " | " : " ") << out[i][b]; }
+    else { for (std::size_t b = 0; b < out[i].size(); ++b) if (!out[i][b].empty()) o << ' ' << out[i][b]; }
+  }
+  o << " # counts=";
+  for (std::size_t i = 0; i < counts.size(); ++i) o << (i ? "," : "") << std::hex << counts[i];
+  o << " pruned=";
+  for (std::size_t i = 0; i < counts_pruned.size(); ++i) o << (i ? "," : "") << std::hex << counts_pruned[i];
+  o << " discounts=";
+  for (std::size_t i = 0; i < discounts.size(); ++i) for (int k = 0; k < 4; ++k) { uint32_t bits; memcpy(&bits, &discounts[i].amount[k], 4); o << (i || k ? "," : "") << std::hex << bits; }
+  return o.str();
+}
+
 std::string Handle(const std::string &line) {
   std::istringstream in(line);
   std::string cmd, order_s, bc_s, mem_s, ve_s, file;
   in >> cmd >> order_s >> bc_s >> mem_s >> ve_s >> file;
+  if (cmd == "AC") {
+    std::istringstream in2(line); std::string c; in2 >> c;
+    try { return HandleAdjust(in2); }
+    catch (const std::exception &e) { std::string w = e.what(); for (size_t i = 0; i < w.size(); ++i) if (w[i] == '\n') w[i] = ' '; return "EXCEPTION " + w; }
+  }
   if (cmd != "CC") return "?";
   const std::size_t order = hx(order_s);
   try {
